@@ -47,6 +47,16 @@ CLAIMED.update({
              note='Trusted: gen/macro_parse.py + gen_macros.py (validated by the rustc correspondence each run); the denotation table Macro/Denote.v is a hand-written spec; rustc macro expansion/type checking exercised not modelled.',
              ref='DESIGN.md section 7 C06'),
 })
+CLAIMED.update({
+ 'C07': dict(technique='Coq proofs over R of the arc law, counts, radius laws and the chamfer outline on a hand model of dim2.rs; bit-exact differential run; property oracles (winding, tangency, box, simplicity) on implementation output',
+             text='coq/Props/C07.v: arc is defined iff degrees <= 360, has segments(+1) points, every point keeps the start radius (rotation preserves length) and is the start turned clockwise by i*degrees/segments; circle/inscribed corners lie on the radius; circumscribed_polygon is the inscribed one of radius r/cos(180/n); chamfer gives the seven documented points with area2 = -(s^2+2so+3o^2) < 0; star has 2n points; and the REFUTATION chamfer crosses itself when oversize > size (known finding). Tie: model evaluated in Coq floats against every generator (trig from the hook). Winding of the trig outlines, tangency, rounded-rect box/touch/arcs and simplicity are decided by exact-formula oracles on sampled outputs (exploration).',
+             note='Trusted: hand model Geom/Dim2.v + differential tie; stdlib real axioms; oracles in props/geomoracles.py are exploration-level. Known finding: chamfer with oversize >= size.',
+             ref='DESIGN.md section 7 C07'),
+ 'C08': dict(technique='Coq proofs over R: Bernstein = de Casteljau = code, sampled points, hull weights, 2D/3D agreement; chain invariant proved by induction over every history new -> add* -> [close]; differential run on histories',
+             text='coq/Props/C08.v: cubic/quadratic point functions equal the Bernstein form and the de Casteljau construction; gen_points has segments+1 points at t = i/segments, first = start, last = end (segments >= 1), weights non-negative summing to 1; 2D and 3D agree on planar input; C08_chain_history: for every operation list, consecutive curves share their end point exactly and the next control1 lies on the previous end tangent (G1, positive multiple for positive handle length); close adds one curve ending exactly at the first start and re-aims the first handle; point count = sum of segments (+1 when open). Tie: chain histories of 0..6 adds with optional close, struct and free-function forms, both star paths, compared in Coq floats; oracles re-check joints, tangents, knots, counts on implementation output.',
+             note='Trusted: hand model Geom/Dim2.v + differential tie; stdlib real axioms; the end point is reached up to rounding of segments*(1/segments) (measured).',
+             ref='DESIGN.md section 7 C08'),
+})
 NOT_YET = {}
 def main():
     props = [json.loads(l)['id'] for l in open('properties.jsonl')]
